@@ -224,9 +224,9 @@ def check_budget(ctx, sites):
 def check_nonfinite(ctx, S):
     R = "C14-GUARD"
     # a failing evaluation (non-finite / empty) must raise, and "no good samples" must raise
-    raises = [s for s in A.walk_local(S.fn) if isinstance(s, ast.If) and A.always_raises(s.body)]
-    has_nogood = any("len(" in A.unparse(s.test) and "== 0" in A.unparse(s.test) for s in raises)
-    ctx.check(R, S.fn, "%s: an empty accepted set raises" % S.name, has_nogood, "no `if len(good) == 0: raise`", key=S.name + ":nogood")
+    gname = S.gname or "good_samples_idx"
+    g = A.find_raising_guard(S.fn, A.nnf_of_src("len(%s) == 0" % gname))
+    ctx.check(R, g or S.fn, "%s: an empty accepted set raises" % S.name, g is not None, "no raise when len(%s) == 0" % gname, key=S.name + ":nogood")
     loop = find_loop(S)
     if isinstance(loop, ast.For):
         okelse = bool(loop.orelse) and A.always_raises(loop.orelse)
